@@ -152,14 +152,13 @@ Q q_equal4()
     T* a = sym(LN); T* b = sym(LM);
     bool e = std::equal(a, a + LN, b, b + LM COMMA_E); vf_assert(k_equal4(a, LN, b, LM) == e, "equal(first1,last1,first2,last2) == std"); sp_ok();
 }
-// second range of symbolic length m2 <= LM in an exact-size block (all LM candidate elements are drawn first)
-static T* sym_upto(unsigned m2) { T* all = sym(LM); T* p = (T*)vf_alloc((uint64_t)m2 * sizeof(T)); for (unsigned i = 0; i < LM; i++) if (i < m2) p[i] = all[i]; return p; }
+// second range either as long as the first (LM == LN) or one element shorter, each in its own exact-size block
 Q q_equal4_symlen()
 {
-    T* a = sym(LN); unsigned m2 = vf_nd_u32(); vf_assume(m2 <= LM); T* b = sym_upto(m2);
-    VF_KNOWN(C06_equal4_nonrandom_length, IT != 0 && m2 != LN);
-    if (m2 == LN) vf_witness("equal4 same length");
-    bool e = std::equal(a, a + LN, b, b + m2 COMMA_E); vf_assert(k_equal4(a, LN, b, (int)m2) == e, "equal(first1,last1,first2,last2) == std (second length symbolic)"); sp_ok();
+    T* a = sym(LN); T* full = sym(LM); bool shorter = (vf_nd_u8() & 1) != 0; T* sh = dup(full, LM - 1); T* b = shorter ? sh : full; int m2 = shorter ? LM - 1 : LM;
+    VF_KNOWN(C06_equal4_nonrandom_length, IT != 0 && shorter);
+    if (!shorter) vf_witness("equal4 same length");
+    bool e = std::equal(a, a + LN, b, b + m2 COMMA_E); vf_assert(k_equal4(a, LN, b, m2) == e, "equal(first1,last1,first2,last2) == std (second range same length or one shorter)"); sp_ok();
 }
 Q q_mismatch3()
 {
@@ -193,9 +192,9 @@ Q q_is_permutation4()
 }
 Q q_is_permutation4_symlen()
 {
-    T* a = sym(LN); unsigned m2 = vf_nd_u32(); vf_assume(m2 <= LM); T* b = sym_upto(m2);
-    VF_KNOWN(C06_is_permutation4_nonrandom_length, IT != 0 && m2 != LN);
-    bool e = std::is_permutation(sf(a), sf(a + LN), sf(b), sf(b + m2)); vf_assert(k_is_permutation4(a, LN, b, (int)m2) == e, "is_permutation(4) == std (second length symbolic)");
+    T* a = sym(LN); T* full = sym(LM); bool shorter = (vf_nd_u8() & 1) != 0; T* sh = dup(full, LM - 1); T* b = shorter ? sh : full; int m2 = shorter ? LM - 1 : LM;
+    VF_KNOWN(C06_is_permutation4_nonrandom_length, IT != 0 && shorter);
+    bool e = std::is_permutation(sf(a), sf(a + LN), sf(b), sf(b + m2)); vf_assert(k_is_permutation4(a, LN, b, m2) == e, "is_permutation(4) == std (second range same length or one shorter)");
 }
 #endif
 
